@@ -46,7 +46,7 @@ def r1(text, ctx):
     return toks_replace(text, edits), len(edits)
 
 
-@rule('R18', 'attributes (#[..]) dropped')
+@rule('R18', 'attributes (#[allow], #[cfg], #[async_trait] ..) dropped; #[derive(..)] kept')
 def r18(text, ctx):
     toks = lex(text)
     edits = []
@@ -58,7 +58,8 @@ def r18(text, ctx):
                 j += 1
             if toks[j].text == '[':
                 k = match_close(toks, j)
-                edits.append((toks[i].start, toks[k].end, ''))
+                if toks[j + 1].text != 'derive':
+                    edits.append((toks[i].start, toks[k].end, ''))
                 i = k
         i += 1
     return toks_replace(text, edits), len(edits)
@@ -358,3 +359,83 @@ def r25(text, ctx):
         text = text[:recv.start] + 'verif_rsplitn(&%s, %s)' % (recv.text, args) + text[toks[k].end:]
         n += 1
     return text, n
+
+
+@rule('R3b', 'handle types: `Box<dyn SeekAndRead + Send>` / `Box<dyn SeekAndWrite + Send>` -> `Box<T>` with T given by rulearg `R3b Trait=Type` (drops dynamic dispatch on handles)')
+def r3b(text, ctx):
+    n = 0
+    for arg in ctx.rule_args.get('R3b', []):
+        tr, ty = arg.split('=')
+        text, c = re.subn(r'Box\s*<\s*dyn\s+%s\s*(?:\+\s*Send\s*)?>' % re.escape(tr), 'Box<%s>' % ty, text)
+        n += c
+    return text, n
+
+
+@rule('R8', 'the type `Box<dyn Iterator<Item = T> + Send>` -> `std::vec::IntoIter<T>`; `Box::new(E.into_iter())` -> `E.into_iter()` (drops laziness / boxing of listings)')
+def r8(text, ctx):
+    n = 0
+    text, c = re.subn(r'Box\s*<\s*dyn\s+Iterator\s*<\s*Item\s*=\s*([A-Za-z0-9_]+)\s*>\s*(?:\+\s*Send\s*)?>', r'std::vec::IntoIter<\1>', text)
+    n += c
+    while True:
+        toks = lex(text)
+        hit = None
+        for i, t in enumerate(toks):
+            if t.kind == 'ident' and t.text == 'Box' and i + 3 < len(toks) and toks[i + 1].text == '::' and toks[i + 2].text == 'new' and toks[i + 3].text == '(':
+                k = match_close(toks, i + 3)
+                inner = text[toks[i + 3].end:toks[k].start].strip()
+                if re.search(r'\.into_iter\(\)$', inner):
+                    hit = (i, k, inner)
+                    break
+        if not hit:
+            break
+        i, k, inner = hit
+        text = text[:toks[i].start] + inner + text[toks[k].end:]
+        n += 1
+    return text, n
+
+
+def r4_store_methods(ctx):
+    """fixpoint: methods (by name) of the unit's sources that touch the lock cell, directly or through self.<m>()"""
+    fns = ctx.source_fns
+    direct = set(nm for nm, body in fns.items() if re.search(r'\bself\s*\.\s*(handle|fs)\s*\.\s*(read|write|clone)\s*\(', body or ''))
+    changed = True
+    while changed:
+        changed = False
+        for nm, body in fns.items():
+            if nm in direct or not body:
+                continue
+            for d in list(direct):
+                if re.search(r'\bself\s*\.\s*%s\s*\(' % re.escape(d), body):
+                    direct.add(nm)
+                    changed = True
+                    break
+    return direct
+
+
+@rule('R4', 'lock cell store-passing: methods that touch `self.handle` / `self.fs` get `st: &mut <Impl>`; `self.handle.read().unwrap()` -> `(&*st)`, `.write().unwrap()` -> `(&mut *st)`, '
+            '`self.handle.clone()` -> `LockCell`, `self.m(a)` -> `self.m(st, a)` for such methods (drops lock acquisition, poisoning, Arc identity, concurrency); rulearg R4 <ImplType>')
+def r4(text, ctx):
+    if '\x00' not in text:
+        return text, 0
+    impl_ty = ctx.rule_args.get('R4', ['MemoryFsImpl'])[0]
+    sig, body = text.split('\x00')
+    n = 0
+    methods = r4_store_methods(ctx)
+    m = re.search(r'\bfn\s+([A-Za-z0-9_]+)', sig)
+    name = m.group(1)
+    touches = name in methods and re.search(r'\(\s*&(?:\s*mut)?\s*self\b', sig)
+    if touches:
+        sig, c = re.subn(r'\(\s*(&(?:\s*mut)?\s*self)\s*(,?)', lambda mm: '(%s, st: &mut %s%s' % (mm.group(1), impl_ty, ', ' if mm.group(2) else ''), sig, count=1)
+        n += c
+    body, c = re.subn(r'\bself\s*\.\s*(?:handle|fs)\s*\.\s*read\s*\(\s*\)\s*\.\s*unwrap\s*\(\s*\)', '(&*st)', body)
+    n += c
+    body, c = re.subn(r'\bself\s*\.\s*(?:handle|fs)\s*\.\s*write\s*\(\s*\)\s*\.\s*unwrap\s*\(\s*\)', '(&mut *st)', body)
+    n += c
+    body, c = re.subn(r'\bself\s*\.\s*(?:handle|fs)\s*\.\s*clone\s*\(\s*\)', 'LockCell', body)
+    n += c
+    for d in sorted(methods):
+        body, c = re.subn(r'\bself\s*\.\s*%s\s*\(\s*\)' % re.escape(d), 'self.%s(st)' % d, body)
+        n += c
+        body, c = re.subn(r'\bself\s*\.\s*%s\s*\((?!st\b)' % re.escape(d), 'self.%s(st, ' % d, body)
+        n += c
+    return sig + '\x00' + body, n
